@@ -15,14 +15,16 @@ ASSUMPTIONS = ['memory is compared one-sided: Go TotalAlloc <= S0 + S1 * (model 
 RULE = ('per entry point (cbor x5, cert chain, sxg reader, sxg verifier, bundle reader, bundle-signature subset decoder, structured headers x2, MI decoder x2, integrity-block detection): '
         'valid artifacts produced by the real writers, then truncation at every/sampled prefix, random byte flips, every CBOR head inflated to declared lengths/counts '
         '{2^16..2^64-1}, fixed-width length fields set to their maximum, MI record sizes around 0 / max / 2^64, raw random bytes behind valid magic; '
-        'non-trivial = distinct input reaching the parser')
+        'non-trivial = distinct input reaching the parser; '
+        'each integrity-block entry point alone on files of every length 0..20 (contents x handle position); honestly signed bundles (the verifier reaches MI decoding) '
+        'whose response body declares record sizes 0 .. 2^64-1')
 EXHAUSTIVE = {}
 
 S0, S1 = 1 << 20, 24          # Go bytes allowed: S0 + S1 * (alloc_m + 64 * steps_m)
 # model cost must satisfy alloc + steps <= A * len + F with the constants of the theorems in Properties/C10.lean
 # (alloc and steps are bounded separately there: the sum is bounded by twice the bound; bundle: C10.bundle_linear_partial)
 LINEAR = {'c10.cbor': (8, 12), 'c10.cert': (12, 16), 'c10.sxg': (14, 2 * (2**24 + 6)), 'c10.subset': (8, 18), 'c10.mice': (6, 2 * 522), 'c10.sh': (3, 1),
-          'c10.ib': (0, 18), 'c10.verify': (12, 33829), 'c10.bundle': (28, 520), 'c10.bundleverify': (56, 1040)}
+          'c10.ib': (0, 18), 'c10.ib.obtain': (0, 18), 'c10.ib.has': (0, 18), 'c10.verify': (12, 33829), 'c10.bundle': (28, 520), 'c10.bundleverify': (56, 1040)}
 
 BIG = [1 << 16, (1 << 24) - 1, 1 << 28, (1 << 31) - 1, 1 << 31, (1 << 32) - 1, 1 << 32, 1 << 40, (1 << 62), (1 << 63) - 1, 1 << 63, (1 << 64) - 1]
 
@@ -56,7 +58,7 @@ def verdict(op, g, m):
     if pg is None:
         return f'the parser did not return a value or an error: {g}'
     kind = op.split(' ')[0]
-    if kind in ('c10.sh', 'c10.ib'):
+    if kind in ('c10.sh', 'c10.ib', 'c10.ib.obtain', 'c10.ib.has'):
         if pg[0] != pm[0]:
             return f'accept/reject differs: go {pg[0]} model {pm[0]}'
     elif kind != 'c10.verify' and pg[0] == 'ok' and pm[0] != 'ok':
@@ -232,6 +234,44 @@ def f15_witness(k, m):
     b = bytes([0x85, 0x48, 0xf0, 0x9f, 0x8c, 0x90, 0xf0, 0x9f, 0x93, 0xa6, 0x44]) + b'b2\0\0' + bstr(sl) + head(4, 2) + idx + responses
     total = len(b) + 9
     return b + b'\x48' + total.to_bytes(8, 'big')
+
+
+def signed_bundle_bodies(ctx, w, date):
+    """bundles HONESTLY signed by the library (signatures section verifies, URL in subset-hashes, header hash and Digest header in place), so
+    that VerifyExchange gets as far as MI-decoding the response body -- which the signature does not cover. The body then declares record
+    sizes 0 .. 2^64-1 (around the 16 KiB limit, every power-of-two magnitude above it) with a whole record, one byte, or nothing behind
+    the 8-byte size field: the declared size must not steer the allocation."""
+    k0 = w.keys[0]
+    ops, sops = [], []
+    for v in ('b1', 'b2'):
+        for rs, blen in ((16, 40), (4096, 5000), (16384, 100)):
+            bb = bundle(v, b'https://example.com/', None, None, [exch(b'https://example.com/', 200, [(b'Content-Type', [b'text/plain'])], bytes(i % 251 for i in range(blen))),
+                                                                 exch(b'https://example.com/other', 200, [(b'Content-Type', [b'text/plain'])], b'second body')])
+            sops.append(f'bsig.sign {bb} {rs} {k0["cert"]}:{hexs(b"ocsp")}:nil {k0["key"]} {hexs(b"https://example.com/validity")} {date} 3600')
+    signed = [r[3:] for r in ctx.go(sops) if r and r.startswith('ok ')]
+    if len(signed) < len(sops):
+        ctx.infra.append(f'c10: {len(sops) - len(signed)} bundles could not be signed')
+    SIZES = [0, 1, 16, 16383, 16384, 16385, 16416, 32768, 65536, 1 << 20, (1 << 20) + 1, 1 << 22, 1 << 24, 1 << 26, 1 << 28, (1 << 30) - 1, 1 << 30, (1 << 30) + 1, (1 << 31) - 1,
+             1 << 31, 1 << 32, 1 << 33, 1 << 40, (1 << 62), (1 << 63) - 1, 1 << 63, (1 << 64) - 33, (1 << 64) - 32, (1 << 64) - 1]
+    variants = []
+    for si, sb_ in enumerate(signed):
+        t = sb_.split(' ')
+        exs_ = t[4].split(',')
+        first = exs_[0].split('~')
+        body = unhex(first[3])
+        variants.append(sb_)                                  # the honest one (control: verifies)
+        for j, n in enumerate(SIZES):
+            if si >= 2 and j % 3 != si % 3: continue          # all sizes on the first b1 and b2 bundle, a third of them on the others
+            for tail in (body[8:], b'x', b''):
+                nb = n.to_bytes(8, 'big') + tail
+                variants.append(' '.join(t[:4] + [','.join(['~'.join(first[:3] + [hexs(nb)])] + exs_[1:])]))
+    files = ctx.go([f'bundle.write {b}' for b in variants])
+    for r in files:
+        if r and r.startswith('ok '):
+            ops.append(f'c10.bundleverify {r.split(" ")[1]} {date + 5}')
+    if len(ops) < len(variants):
+        ctx.infra.append(f'c10: {len(variants) - len(ops)} signed bundles with altered bodies could not be written')
+    return ops
 
 
 def run(ctx):
@@ -455,6 +495,25 @@ def run(ctx):
         ops.append(f'c10.ib {hexs(f)}')
         for mu in mutants(f, rng, 6, 6, 0):
             ops.append(f'c10.ib {hexs(mu)}')
+
+    # each integrity-block entry point ALONE (c10.ib stops at the first one that reports an error, so the second never saw a file shorter
+    # than the first one's minimum): every file length 0 .. 20 x contents (zeros, ff, an honest trailing length, a trailing length of 0 /
+    # one more / negative) x where the handle stood before the call
+    for n in range(0, 21):
+        conts = [bytes(n), b'\xff' * n, bytes(range(1, n + 1))]
+        if n >= 8:
+            conts += [bytes(n - 8) + tl.to_bytes(8, 'big') for tl in (n, 0, n + 1, n - 1, 1 << 63, (1 << 64) - 1)]
+        for c in conts:
+            for pos in ('start', 'mid', 'end'):
+                ops.append(f'c10.ib.obtain {hexs(c)} {pos}')
+                ops.append(f'c10.ib.has {hexs(c)} {pos}')
+    for f in bfiles[:2]:
+        for cut in list(range(0, 12)) + [len(f) - 9, len(f) - 8, len(f) - 7, len(f) - 1, len(f)]:
+            if 0 <= cut <= len(f):
+                ops.append(f'c10.ib.obtain {hexs(f[:cut])} start')
+                ops.append(f'c10.ib.obtain {hexs(f[len(f) - cut:])} end')
+
+    ops += signed_bundle_bodies(ctx, w, date)
 
     ops = list(dict.fromkeys(ops))
     ctx.both(ops)
